@@ -538,6 +538,8 @@ def obligations(tier):
            make_kernel("rwm", 1, "periodic", H), make_kernel("rwm", 1, "reflective", 1), make_kernel("tpcn", 1, "periodic", 1),
            make_propose_only(1501), make_modestats(1), make_modestats(2)]
     if tier == "thorough":
-        obs += [make_kernel("tpcn", 1, "interior", H, nu=5.0), make_kernel("tpcn", 1, "reflective", 1), make_kernel("tpcn", 2, "interior", 1),
+        # (tpCN on a reflective coordinate is not enumerated: the parity forks exhaust the budget; its known finding is the
+        #  same defect as on periodic coordinates, which the quick tier reports)
+        obs += [make_kernel("tpcn", 1, "interior", H, nu=5.0), make_kernel("tpcn", 1, "periodic", H, wraps=2), make_kernel("tpcn", 2, "interior", 1),
                 make_kernel("rwm", 2, "hard", 1), make_kernel("rwm", 2, "periodic", 1)]
     return obs
